@@ -88,7 +88,7 @@ def mutate(r, text):
     return text
 
 
-DIRECTED = ["int", "int?", "int*", "int*3", "int[]", "int[,]", "int[x,y]", "int[x:2,y:3]", "int[2,3]", "int[()]", "int[(x)]", "int[((x:3))]", "int[(x]", "int[x)]", "int[,,]", "int[x:]",
+DIRECTED = ["int[a.b]", "int[a.b:2]", "int[(a.b)]", "int[x, a.b]", "int[a . b]", "A.B[a]", "A.B<C.D>[c, d:2]", "int", "int?", "int*", "int*3", "int[]", "int[,]", "int[x,y]", "int[x:2,y:3]", "int[2,3]", "int[()]", "int[(x)]", "int[((x:3))]", "int[(x]", "int[x)]", "int[,,]", "int[x:]",
             "int[:3]", "a->b", "a->b->c", "a->b?", "(a->b)?", "a?->b", "a*->b*", "a- >b", "a-b", "a->", "->a", "A<B>", "A<B,C>", "A<B<C>>", "A<B>>", "A<>", "A<B,>", "A<,B>", "A<B C>",
             "A.B", "A . B", "A.", ".A", "A..B", "A.B<C.D>", "(a)", "((a))", "()", "(a", "a)", "(a)(b)", "a b", "a?*?*", "a**", "a*?", "a?3", "a*3*4", "a*18446744073709551615",
             "a*18446744073709551616", "a[18446744073709551616]", "a[x:18446744073709551616]", "", " ", "?", "*", "[", "]", "a[", "a]", "a[]]", "a[[]]", "a[b[c]]", "a[x y]", "a[x,:]",
